@@ -25,6 +25,7 @@ import (
 
 	"github.com/caddyserver/certmagic"
 	"github.com/tmpim/casket"
+	"github.com/tmpim/casket/caskethttp/httpserver"
 	"pgregory.net/rapid"
 
 	"verif/harness/internal/srv"
@@ -91,8 +92,8 @@ func seed() error {
 type Site struct {
 	Scheme string `json:"scheme"` // "", "http", "https"
 	Host   string `json:"host"`
-	Port   string `json:"port"` // "", "80", "443", "8080"
-	TLS    string `json:"tls"`  // "", off, email, self_signed, manual, no_redirect, email_off
+	Port   string `json:"port"`           // "", "80", "443", "8080"
+	TLS    string `json:"tls"`            // "", off, email, self_signed, manual, no_redirect, email_off
 	Path   string `json:"path,omitempty"` // the site is declared for a path prefix only (host/path)
 	// Extra: a second tls directive follows in the block, carrying options only (protocols)
 	Extra bool `json:"extra,omitempty"`
@@ -108,6 +109,9 @@ type Case struct {
 	Probes []Probe `json:"probes"`
 	// CustomPorts: the process runs with -http-port 8180 -https-port 8543 (set before the configuration is loaded)
 	CustomPorts bool `json:"custom_ports,omitempty"`
+	// DefaultPort: the process runs with -port N ("" = the built-in default 2015): a site written without
+	// scheme and port is a site on that port
+	DefaultPort string `json:"default_port,omitempty"`
 }
 
 func (s Site) addr() string {
@@ -177,6 +181,26 @@ type expect struct {
 // the process-wide default ports (-http-port / -https-port); a case may customise them
 var httpPort, httpsPort = "80", "443"
 
+// the process-wide default port (-port) of the case at hand
+var defaultPort = ""
+
+// port: the port the address names, the -port value standing in for a site written without scheme and port
+func (s Site) port() string {
+	if s.Port == "" && s.Scheme == "" && defaultPort != "" {
+		return defaultPort
+	}
+	return s.Port
+}
+
+func setDefaultPort(p string) {
+	defaultPort = p
+	if p == "" {
+		httpserver.Port = httpserver.DefaultPort
+	} else {
+		httpserver.Port = p
+	}
+}
+
 func setPorts(custom bool) {
 	httpPort, httpsPort = "80", "443"
 	if custom {
@@ -188,12 +212,12 @@ func setPorts(custom bool) {
 
 func model(s Site) expect {
 	e := expect{}
-	explicitHTTP := s.Scheme == "http" || s.Port == httpPort
+	explicitHTTP := s.Scheme == "http" || s.port() == httpPort
 	e.managed = hostQualifies(s.Host) && !explicitHTTP && (s.TLS == "" || s.TLS == "email" || s.TLS == "no_redirect" || s.TLS == "wildcard")
 	e.tlsOn = e.managed || ((s.TLS == "self_signed" || s.TLS == "manual") && !explicitHTTP)
 	switch {
-	case s.Port != "":
-		e.port = s.Port
+	case s.port() != "":
+		e.port = s.port()
 	case s.Scheme == "http":
 		e.port = httpPort
 	case s.Scheme == "https":
@@ -268,6 +292,8 @@ func sniFor(host string) string {
 func runCase(c *Case) (nontrivial bool, err error) {
 	setPorts(c.CustomPorts)
 	defer setPorts(false)
+	setDefaultPort(c.DefaultPort)
+	defer setDefaultPort("")
 	if os.Getenv("VERIF_NETNS") != "1" {
 		return false, fmt.Errorf("HARNESS: C15 needs a private network namespace (ports 80/443)")
 	}
@@ -330,7 +356,7 @@ func runCase(c *Case) (nontrivial bool, err error) {
 			anyRedirect = true
 		}
 		// one condition away from flipping, or hosts shared between sites
-		if hostQualifies(s.Host) && (s.Scheme == "http" || s.Port == httpPort || s.TLS != "") {
+		if hostQualifies(s.Host) && (s.Scheme == "http" || s.port() == httpPort || s.TLS != "") {
 			nontrivial = true
 		}
 		for j, o := range c.Sites {
@@ -553,6 +579,11 @@ var relatedHosts = map[string][]string{
 func genCase(t *rapid.T) *Case {
 	c := &Case{CustomPorts: rapid.IntRange(0, 4).Draw(t, "customports") == 0}
 	setPorts(c.CustomPorts)
+	if !c.CustomPorts {
+		c.DefaultPort = rapid.SampledFrom([]string{"", "", "", "80", "8080"}).Draw(t, "defaultport")
+	}
+	setDefaultPort(c.DefaultPort)
+	defer setDefaultPort("")
 	n := rapid.IntRange(1, 5).Draw(t, "n")
 	used := map[string]bool{}
 	for i := 0; i < n; i++ {
@@ -589,7 +620,7 @@ func genCase(t *rapid.T) *Case {
 		if s.Scheme == "https" && !model(s).tlsOn {
 			s.Scheme = "" // an https:// address without any TLS: not defined by the statement
 		}
-		if s.Port == httpsPort && !model(s).tlsOn {
+		if s.port() == httpsPort && !model(s).tlsOn {
 			s.Port = "8080" // a plaintext site on the HTTPS port: not a case the statement speaks about
 		}
 		if s.Host == "" && s.Port == "" && s.Scheme == "" {
@@ -629,6 +660,11 @@ func TestAutoHTTPS(t *testing.T) {
 			t.Skipf("%v", err)
 		}
 		var classes []string
+		if c.DefaultPort != "" {
+			classes = append(classes, "default-port-flag:"+c.DefaultPort)
+		}
+		setDefaultPort(c.DefaultPort)
+		defer setDefaultPort("")
 		for _, s := range c.Sites {
 			if model(s).managed {
 				classes = append(classes, "managed")
